@@ -502,7 +502,7 @@ def Ihp(p):
     ]
 
 
-@unit("C03", "http.feed_data", functions=[f"{MOD}:HttpParser.feed_data"], timeout_ms=20000, also=("C10", "C01", "C05"))
+@unit("C03", "http.feed_data", functions=[f"{MOD}:HttpParser.feed_data"], timeout_ms=20000, also=("C10", "C01", "C05", "C02"))
 def http_feed_data(u: U):
     """HttpParser.feed_data: resumability of the message-head loop - exact tail, no hidden per-call state, same limit
     for a partial and a complete line, bare LF refused, limits, queue cap, only protocol errors."""
@@ -706,7 +706,10 @@ def http_feed_data(u: U):
                 u.check("C01.lf.tail", Not(tail.sym_contains(b"\n")), "a partial line kept for the next read contains no LF")
                 u.check("C03.tail.http.no_complete_line", Not(tail.sym_contains(b"\r\n")),
                         "input is kept as 'incomplete' only if it really holds no line terminator: every terminator "
-                        "that is present is found whatever the history of the parser (no stale scan offsets)")
+                        "that is present is found whatever the history of the parser (no stale scan offsets)",
+                        # C02 'however the bytes are segmented in transit': a request head cut between CR and LF is the
+                        # same request
+                        also_as=("C02.seg.every_line_terminator_is_found",))
                 first = p._lines.sym_len() == 0
                 limit = Ite(first, p.max_line_size, p.max_field_size)
                 # the length of a line excludes its terminator (that is what the complete-line path measures), so a
